@@ -422,6 +422,13 @@ class SigmaDetection(ParentChainMixin):
                             if k not in merged_dict:  # key doesn't exists in merged dict: just add
                                 merged_dict[k] = v
                             else:  # key collision, now things get complicated...
+                                if "neq" in k.split("|")[1:]:
+                                    # Each of the items is negated as a whole. One item with all
+                                    # values would be the negation of their conjunction instead.
+                                    raise sigma_exceptions.SigmaValueError(
+                                        f"Can't merge negated items '{k}' into one item.",
+                                        source=self.source,
+                                    )
                                 if "|all" in k:  # key contains 'all' modifier
                                     mk = merged_dict[k]
                                     if not isinstance(
